@@ -70,7 +70,7 @@ def poke_histories(h, i, share):
 
 def run(ctx):
     rng = ctx.rng
-    n = ctx.n(250, 2200)
+    n = ctx.n(250, 1800)
     histories = CORPUS + [G.history_c10(rng, 16 if ctx.thorough else 9) for _ in range(n)]
     n = len(histories)
     want = ("read", "build", "edit", "write")
